@@ -2876,6 +2876,10 @@ def full(shape: ConvertibleToShape, fill_value: Scalar | prim.NaN,
         fill_value = NaN(conv_dtype.type)
     else:
         fill_value = conv_dtype.type(fill_value)
+        if conv_dtype == _BOOL_DTYPE:
+            # pymbolic (and hence code generation) does not accept booleans
+            # as operands of arithmetic or comparisons: use 0/1
+            fill_value = int(fill_value)
 
     return IndexLambda(expr=cast("ArithmeticExpression", fill_value),
                        shape=shape, dtype=conv_dtype,
